@@ -11,7 +11,7 @@ NOIGN = [w for w in S.SC + S.SC_EXTRA if w not in ('\x00', '\x7f')]
 
 def scopes(quick):
     sc = [(NOIGN, 3 if quick else 4), (S.ST, 2 if quick else 3)]
-    for k in ('env', 'args', 'math', 'verb', 'item', 'esc', 'sig'):
+    for k in ('env', 'args', 'math', 'verb', 'item', 'esc', 'sig', 'names'):
         sc.append((S.SUB[k], 3 if quick else 5))
     return sc
 
@@ -25,6 +25,16 @@ def extras(chk, quick):
     return [s for s in extra if '\x00' not in s and '\x7f' not in s]
 
 
+def twin_documents(chk):
+    """commands with three argument groups two of which are textually equal (DocGen)"""
+    from harness import docs as D
+    from harness.tlc import from_atoms
+    p = {'MEnvNames': [], 'VerbNames': [], 'Leaves': [], 'Labels': [''], 'ComPool': [], 'ListNames': [], 'MathKinds': [], 'Budget': 7, 'Seps': [''],
+         'TextPool': ['c', 't'], 'MathTextPool': ['x'], 'EnvNames': [], 'CmdNames': ['a'], 'MaxSib': 1, 'MaxArgs': 3, 'MaxDepth': 3}
+    recs, _ = D.generate(chk, 'twinargs', p, ['C02_Structure'])
+    return [from_atoms(r['i']) for r in recs]
+
+
 def run(chk):
     quick = chk.tier == 'quick'
     chk.rule = ('TLC enumerates every source over the token-kind alphabets (<= N words, no NUL/DEL), runs the reader '
@@ -34,7 +44,7 @@ def run(chk):
                 'output. A case is a source string.')
     S.standard(chk, scopes(quick), INV, CLAUSES,
                'output must consist of the input characters in order; only whitespace before { or [ may vanish',
-               extra_sources=extras(chk, quick), runs='')
+               extra_sources=extras(chk, quick), runs='', sources=twin_documents(chk))
     chk.assumptions += ['side condition "mandatory arguments of \\def \\textbf \\section \\label are brace-delimited" is '
                         'decided by the reference machine: no re-bracing step fires on the source',
                         'NUL/DEL-free sources only']
